@@ -460,7 +460,7 @@ fn check() {
 
     let seqs = ctr.seqs.load(Ordering::Relaxed);
     let steps = ctr.steps.load(Ordering::Relaxed);
-    if seqs < 5000 || ctr.outcomes.len() < 10 {
+    if chk.violation_count() == 0 && (seqs < 5000 || ctr.outcomes.len() < 10) {
         machinery(format!("vacuous: sequences={seqs} outcomes={}", ctr.outcomes.len()));
     }
     let coverage = json!({
